@@ -167,14 +167,19 @@ func runPipe(c Case) *vkit.Outcome {
 				}
 			}
 			synctest.Wait()
-			time.Sleep(5 * time.Second) // held events are flushed by the stream time-out
-			synctest.Wait()
+			if !c.StopBusy {
+				time.Sleep(5 * time.Second) // held events are flushed by the stream time-out
+				synctest.Wait()
+			}
 			p.Stop()
 			p.VerifWakeProcessors()
 			time.Sleep(3 * time.Hour) // maintenance loops observe the stop flag
 		})
 	}()
 	o.Class("pipeline-replay:" + c.Plugin)
+	if c.StopBusy {
+		o.Class("pipeline-replay-stopped-without-waiting-for-time-outs")
+	}
 	out.mu.Lock()
 	defer out.mu.Unlock()
 	if out.n > 0 {
